@@ -195,7 +195,7 @@ func intsKey(xs []int) string {
 type payload struct {
 	Spec    sortSpec `json:"spec"`
 	Family  string   `json:"family"`
-	Mixed   bool     `json:"mixed_shapes"` // the key fields are at different positions in different records
+	Mixed   bool     `json:"mixed_shapes"` // the index of the key fields differs between record types (position varies / key absent)
 	Records []string `json:"records"`      // ZSON of record id i+1
 	recs    []zed.Value
 	recSize int
@@ -303,7 +303,7 @@ func randomSpec(rng *rand.Rand) sortSpec {
 // 1..K such that class i < class i+1 under the operator's comparator.
 func (e *sortEnv) makePayload(rng *rand.Rand, keys []int, K int) *payload {
 	u := e.u
-	p := &payload{Spec: randomSpec(rng), Family: familyNames[rng.Intn(len(familyNames))], Mixed: rng.Intn(4) == 0, zctx: zed.NewContext()}
+	p := &payload{Spec: randomSpec(rng), Family: familyNames[rng.Intn(len(familyNames))], Mixed: rng.Intn(3) == 0, zctx: zed.NewContext()}
 	fam := u.family(p.Family)
 	cmp := p.Spec.comparator(u.zctx)
 	nk := len(p.Spec.Keys)
@@ -375,7 +375,7 @@ func (e *sortEnv) makePayload(rng *rand.Rand, keys []int, K int) *payload {
 			m.vals = append(m.vals, xlate(p.zctx, u.vals[tok-1].val))
 		}
 		// a null single key may also be an absent field (missing == null for sort)
-		if nk == 1 && m.vals[0].IsNull() && rng.Intn(3) == 0 {
+		if p.Mixed && nk == 1 && m.vals[0].IsNull() && rng.Intn(2) == 0 {
 			m.omit = true
 		}
 		members[i] = m
@@ -583,7 +583,7 @@ func (e *sortEnv) checkGroup(cases []sortCase, K int) {
 			if p.Mixed && len(spills) >= 2 && len(results) > 0 && results[0].runs == 0 {
 				// known shape F-C06-2: only when the in-memory run of the same input was fine
 				if cl, _ := e.oracle(p.zctx, p.Spec, p.recs, inRows, results[0].rows, results[0].ids); cl == "" {
-					sig = "sort-spill-differs:key-field-position-varies"
+					sig = sigF2
 				}
 			}
 			c.Violate(sig, fmt.Sprintf("`%s` with sort.MemMaxBytes=%d (%d spilled runs) over %d values in batches %v: %s", prog, memMax, len(spills), len(p.recs), sc.Sizes, what), w)
@@ -600,7 +600,7 @@ func (e *sortEnv) checkGroup(cases []sortCase, K int) {
 		if !flowh.Equal(results[0].rows, results[i].rows) {
 			sig := "sort-limit-dependent:" + specClass(p.Spec)
 			if p.Mixed && results[i].runs >= 2 {
-				sig = "sort-spill-differs:key-field-position-varies"
+				sig = sigF2
 			}
 			w := sortWitness{Kind: "sort", Program: prog, Spec: p.Spec, Records: p.Records, Sizes: g.Sizes, MemMax: results[i].lim * p.recSize, MemRef: results[0].lim * p.recSize, Mixed: p.Mixed, Family: p.Family, Got: results[i].rows}
 			c.Violate(sig, fmt.Sprintf("`%s` over the same %d values gives a different result with sort.MemMaxBytes=%d (%d runs) than with %d (%d runs)", prog, len(p.recs), results[i].lim*p.recSize, results[i].runs, results[0].lim*p.recSize, results[0].runs), w)
